@@ -158,7 +158,10 @@ def render(rows):
             elif c['kind'] == 'header':
                 er.append(('cell', '**' + K.PREFIX[enc] + c['type'][2:]))
             else:
-                er.append(('cell', c['text']))
+                # text_by_enc: what kernpy itself writes for this (unfiltered) cell in that encoding - used by the
+                # profiles that contain the separator characters in text (known finding KF-SEP), so that only a
+                # DIFFERENCE between the filtered and the unfiltered export of a selected cell is reported
+                er.append(('cell', c.get('text_by_enc', {}).get(enc, c['text'])))
         if er and not all(e is None or (e[0] == 'cell' and e[1] in K.NULLS) for e in er):
             out.append(er)
     return out
